@@ -12,6 +12,15 @@ theorem pres_stNil {s s' : St} {a : Act} (hI : Inv s) (h : step .repaired s a = 
   | fire t0 =>
     simp only [step] at h
     (repeat' (split at h)) <;> (try cases h) <;> (simp only [St.setPc, St.setObj]; first | (have i_stNil := hI.stNil; have i_refs := hI.refs; have i_stObj := hI.stObj; grind [dutyO, delOf, holdsStore, needsOpen, setsNil, dlObj, PC.ref, upd, Obj.fresh]) | (have i_stNil := hI.stNil; have i_lockA := hI.lockA; have i_refs := hI.refs; have i_stObj := hI.stObj; have i_shOpen := hI.shOpen; have i_shCl := hI.shCl; have i_dlSt := hI.dlSt; have i_putOpen := hI.putOpen; have i_putNotSt := hI.putNotSt; grind (instances := 4000) [dutyO, delOf, holdsStore, needsOpen, setsNil, dlObj, PC.ref, upd, Obj.fresh]))
+  | corrupt d =>
+    simp only [step] at h
+    (repeat' (split at h)) <;> (try cases h) <;> (simp only []; first | (have i_stNil := hI.stNil; have i_refs := hI.refs; have i_stObj := hI.stObj; grind [dutyO, delOf, holdsStore, needsOpen, setsNil, dlObj, PC.ref, upd, Obj.fresh]) | (have i_stNil := hI.stNil; have i_lockA := hI.lockA; have i_refs := hI.refs; have i_stObj := hI.stObj; have i_shOpen := hI.shOpen; have i_shCl := hI.shCl; have i_dlSt := hI.dlSt; have i_putOpen := hI.putOpen; have i_putNotSt := hI.putNotSt; grind (instances := 4000) [dutyO, delOf, holdsStore, needsOpen, setsNil, dlObj, PC.ref, upd, Obj.fresh]))
+  | block d =>
+    simp only [step] at h
+    (repeat' (split at h)) <;> (try cases h) <;> (simp only []; first | (have i_stNil := hI.stNil; have i_refs := hI.refs; have i_stObj := hI.stObj; grind [dutyO, delOf, holdsStore, needsOpen, setsNil, dlObj, PC.ref, upd, Obj.fresh]) | (have i_stNil := hI.stNil; have i_lockA := hI.lockA; have i_refs := hI.refs; have i_stObj := hI.stObj; have i_shOpen := hI.shOpen; have i_shCl := hI.shCl; have i_dlSt := hI.dlSt; have i_putOpen := hI.putOpen; have i_putNotSt := hI.putNotSt; grind (instances := 4000) [dutyO, delOf, holdsStore, needsOpen, setsNil, dlObj, PC.ref, upd, Obj.fresh]))
+  | repair d =>
+    simp only [step] at h
+    (repeat' (split at h)) <;> (try cases h) <;> (simp only []; first | (have i_stNil := hI.stNil; have i_refs := hI.refs; have i_stObj := hI.stObj; grind [dutyO, delOf, holdsStore, needsOpen, setsNil, dlObj, PC.ref, upd, Obj.fresh]) | (have i_stNil := hI.stNil; have i_lockA := hI.lockA; have i_refs := hI.refs; have i_stObj := hI.stObj; have i_shOpen := hI.shOpen; have i_shCl := hI.shCl; have i_dlSt := hI.dlSt; have i_putOpen := hI.putOpen; have i_putNotSt := hI.putNotSt; grind (instances := 4000) [dutyO, delOf, holdsStore, needsOpen, setsNil, dlObj, PC.ref, upd, Obj.fresh]))
   | run t0 =>
     simp only [step] at h
     split at h
